@@ -2,6 +2,7 @@ package checks
 
 import (
 	"fmt"
+	"os"
 	"go/token"
 	"go/types"
 	"sort"
@@ -109,6 +110,37 @@ func (c *Ctx) serviceRoles() *roleInfo {
 						continue // the callee runs in its own role
 					}
 					visit(e.Callee.Func)
+				}
+			}
+			// function values handed to a call as arguments (c.once.Do(c.shutdown), sort.Slice(x, less)) run in the caller's
+			// goroutine: bound methods and plain functions of the package are followed like closures
+			for _, b := range f.Blocks {
+				for _, ins := range b.Instrs {
+					ci, isCI := ins.(ssa.CallInstruction)
+					if !isCI {
+						continue
+					}
+					if _, isGo := ins.(*ssa.Go); isGo {
+						continue
+					}
+					// only library callees: a function of the repository that receives a function value may store it for
+					// another goroutine (newConnection(..., manager.join, manager.leave)); the call graph follows those
+					if sc := ci.Common().StaticCallee(); sc == nil || c.P.IsRepoFunc(sc) {
+						continue
+					}
+					for _, arg := range ci.Common().Args {
+						if _, isFn := arg.Type().Underlying().(*types.Signature); !isFn {
+							continue
+						}
+						if g := funcOfValue(arg); g != nil && inSvc[g] {
+							if _, sent := ri.sentClosures[g]; !sent {
+								if os.Getenv("JTVERIF_DEBUGROLES") != "" {
+									fmt.Println("ROLE-CB", role, shortFn(f), "->", shortFn(g), c.P.RelPos(ins.Pos()))
+								}
+								visit(g)
+							}
+						}
+					}
 				}
 			}
 			// closures created here and called here (defer func(){}(), immediately invoked) are reached via call edges;
